@@ -128,7 +128,10 @@ def run(ctx):
                 "several recurrent classes of chosen periods fed by transient classes, self-loop inside a longer cycle, sparse "
                 "random), randomly renumbered; input as dense bool/int, dense weights (weighted=True), CSR sorted / shuffled "
                 "indices, CSR / weighted CSR with explicitly stored zeros (not edges; the caller's matrix must stay unchanged), "
-                "MarkovChain dense / sparse (also with stored zeros); with and without labels. Non-trivial: n>=2 and at least one edge "
+                "MarkovChain dense / sparse (also with stored zeros); with and without labels; object HISTORIES on one "
+                "DiGraph / MarkovChain (6-14 steps: node_labels / state_values reassigned to permuted, int, float, string labels "
+                "or None, interleaved with reads of every indices / labelled / count / period / subgraph property; every read "
+                "compared with the model's state machine and judged against the CURRENT labels). Non-trivial: n>=2 and at least one edge "
                 "between different nodes; distinct by request line")
 
     def spec(kind, key_prefix, A, rep, replay):
@@ -214,9 +217,11 @@ def run(ctx):
             "cyc": tolists(attempt(lambda: g.cyclic_components_indices)),
         }
         if with_labels:
-            rep["scc_lab"] = tolists(g.strongly_connected_components)
-            rep["sink_lab"] = tolists(g.sink_strongly_connected_components)
-            rep["cyc_lab"] = tolists(attempt(lambda: g.cyclic_components))
+            def rawlists(x):
+                return [list(np.asarray(c).tolist()) for c in x] if isinstance(x, list) else x
+            rep["scc_lab"] = rawlists(g.strongly_connected_components)
+            rep["sink_lab"] = rawlists(g.sink_strongly_connected_components)
+            rep["cyc_lab"] = rawlists(attempt(lambda: g.cyclic_components))
         return rep
 
     def class_strings(rep, labels):
@@ -428,7 +433,7 @@ def run(ctx):
 
     # ---- ./check C03 --replay <file>: only the recorded input -------------------------------------------------
     r = getattr(ctx, "replay_only", None)
-    if r is not None:
+    if r is not None and r.get("op") != "hist":
         form = r.get("form") or "dense"
         kind = "dg" if r.get("op") in ("dg", "sub") else "mc"
         raw = None
@@ -603,6 +608,266 @@ def run(ctx):
         kind = "mc" if (all(any(r) for r in A) and rng.random() < 0.6) else "dg"
         form = rng.choice(FORMS if kind == "dg" else MCFORMS)
         one(A, kind, form, pick_labels(n, rng.random() < 0.3))
+
+    # ---- object histories: one DiGraph / MarkovChain, label reassignments interleaved with reads --------------
+    def small_graph():
+        fam = rng.randrange(4)
+        if fam == 0:
+            p_ = rng.choice([1, 2, 3, 4])
+            A = periodic_block(rng.randint(max(p_, 2), 7), p_, rng.randint(0, 3))
+        elif fam == 1:
+            specs = [(rng.randint(max(q, 1), 3), q) for q in (rng.choice([1, 2, 3]) for _ in range(rng.randint(2, 3)))]
+            A = blocks(specs, rng.randint(0, 2))
+            for i in range(len(A)):
+                if not any(A[i]):
+                    A[i][i] = 1
+        elif fam == 2:
+            m = rng.randint(1, 6)
+            A = [[1 if rng.random() < 0.35 else 0 for _ in range(m)] for _ in range(m)]
+            for i in range(m):
+                if not any(A[i]):
+                    A[i][rng.randrange(m)] = 1
+        else:
+            m = rng.randint(1, 4)
+            A = [[rng.randint(0, 1) for _ in range(m)] for _ in range(m)]
+            for i in range(m):
+                if not any(A[i]):
+                    A[i][i] = 1
+        return renumber(A)
+
+    def history(A, kind, script=None):
+        """one object, a random sequence of label assignments and reads; every read is compared with the model
+        (state = graph + current labels) and judged by the oracle against the CURRENT labels"""
+        n = len(A)
+        rows = [[j for j in range(n) if A[i][j]] for i in range(n)]
+        ref = classes_of(A)
+        ref_sink = [C for C in ref if is_closed(A, C)]
+        irreducible = len(ref) == 1
+        if kind == "dg":
+            want_period = (period_sc(A, ref[0]) or 1) if irreducible else "ERR:NotImplementedError"
+        else:
+            want_period = 1
+            for C in ref_sink:
+                want_period = lcm(want_period, period_sc(A, C))
+        codes = {}
+
+        def code(x):
+            key = (type(x).__name__, x)
+            if key not in codes:
+                codes[key] = len(codes) + 1
+            return codes[key]
+
+        def fresh_labels(allow_none=True):
+            style = rng.choice(["int", "int", "float", "str", "none"] if allow_none else ["int", "float", "str"])
+            ctx.count("hist:labels-" + style)
+            if style == "none":
+                return None
+            base = rng.sample(range(-40, 60), n)
+            if style == "int":
+                return base
+            if style == "float":
+                return [b + 0.5 for b in base]
+            return ["s%d" % b for b in base]
+
+        def wire(L):
+            return "none" if L is None else ",".join(str(code(x)) for x in L)
+
+        cur = fresh_labels() if script is None else script["initial_labels"]
+        arg = np.array(A, dtype=int) if rng.random() < 0.5 else sparse.csr_matrix(np.array(A, dtype=float))
+        if kind == "dg":
+            obj = DiGraph(arg, node_labels=None if cur is None else np.array(cur))
+        else:
+            W = [[(rng.randint(1, 4) if A[i][j] else 0) for j in range(n)] for i in range(n)]
+            P = np.array([[W[i][j] / sum(W[i]) for j in range(n)] for i in range(n)])
+            obj = MarkovChain(sparse.csr_matrix(P) if sparse.issparse(arg) else P,
+                              state_values=None if cur is None else np.array(cur))
+        line = "C03 hist kind=%s n=%d adj=%s" % (kind, n, adj_str(rows))
+        if cur is not None:
+            line += " labels=" + wire(cur)
+        names = ({"idx": {"scc": "strongly_connected_components_indices", "sink": "sink_strongly_connected_components_indices",
+                          "cyc": "cyclic_components_indices"},
+                  "lab": {"scclab": "strongly_connected_components", "sinklab": "sink_strongly_connected_components",
+                          "cyclab": "cyclic_components"},
+                  "sc": "is_strongly_connected", "nscc": "num_strongly_connected_components",
+                  "nsink": "num_sink_strongly_connected_components"} if kind == "dg" else
+                 {"idx": {"comm": "communication_classes_indices", "rec": "recurrent_classes_indices",
+                          "cyc": "cyclic_classes_indices"},
+                  "lab": {"commlab": "communication_classes", "reclab": "recurrent_classes", "cyclab": "cyclic_classes"},
+                  "sc": "is_irreducible", "nscc": "num_communication_classes", "nsink": "num_recurrent_classes"})
+        wname = {"sc": "sc" if kind == "dg" else "irr", "nscc": "nscc" if kind == "dg" else "ncomm",
+                 "nsink": "nsink" if kind == "dg" else "nrec"}
+        lab_of = {"scclab": "scc", "sinklab": "sink", "cyclab": "cyc", "commlab": "comm", "reclab": "rec"}
+        reads = list(names["idx"]) + list(names["lab"]) * 3 + ["sc", "nscc", "nsink", "period", "aper"] + (["sub"] if kind == "dg" else [])
+        frozen = "unbuilt"          # MarkovChain: labels its digraph was built with
+        steps, outs = [], []
+        seen_lab_read = set()
+        replay = {"op": "hist", "kind": kind, "n": n, "adj": [list(map(int, r)) for r in A], "initial_labels": cur, "steps": []}
+
+        def fail(key, what):
+            ctx.spec_fail(key, what, dict(replay, steps=list(replay["steps"])))
+
+        def check_idx(kindname, got):
+            """index variants against the definitions"""
+            base = {"scc": ref, "comm": ref, "sink": ref_sink, "rec": ref_sink}.get(kindname)
+            if base is not None:
+                if not isinstance(got, list) or canon(got) != canon(base):
+                    fail(kind + ":hist-read", "%s = %s, from the definition %s" % (kindname, got, canon(base)))
+            else:   # cyclic classes
+                if irreducible:
+                    d = len(got) if isinstance(got, list) else -1
+                    ok = isinstance(got, list) and sorted(u for c in got for u in c) == list(range(n)) and d == want_period \
+                        and all(len(c) > 0 for c in got)
+                    if ok:
+                        where = {u: k for k, c in enumerate(got) for u in c}
+                        ok = all(where[v] == (where[u] + 1) % d for u in range(n) for v in range(n) if A[u][v])
+                    if not ok:
+                        fail(kind + ":hist-read", "cyclic classes %s are not the period=%s partition" % (got, want_period))
+                elif got != "ERR:NotImplementedError":
+                    fail(kind + ":hist-read", "cyclic classes of a reducible input: %s" % (got,))
+
+        plan = [None] * rng.randint(6, 14) if script is None else script["steps"]
+        for planned in plan:
+            r = rng.random()
+            if (planned is None and r < 0.3) or (planned is not None and planned[0] == "set"):
+                if planned is not None:
+                    L = planned[1]
+                else:
+                    L = fresh_labels()
+                    if L is not None and cur is not None and rng.random() < 0.4:
+                        L = rng.sample(cur, n)             # the same labels, permuted
+                        ctx.count("hist:labels-permuted")
+                if kind == "dg":
+                    obj.node_labels = None if L is None else np.array(L)
+                else:
+                    obj.state_values = None if L is None else np.array(L)
+                    ctx.count("hist:mc-set-" + ("before-digraph" if frozen == "unbuilt" else "after-digraph"))
+                cur = L
+                steps.append("L:" + wire(L))
+                replay["steps"].append(["set", L])
+                continue
+            what = rng.choice(reads) if planned is None else planned[1]
+            replay["steps"].append(["read", what])
+            if kind == "mc" and frozen == "unbuilt":
+                frozen = cur
+            if what == "sub":
+                nodes = rng.sample(range(n), rng.randint(1, n)) if planned is None else planned[2]
+                replay["steps"][-1].append(nodes)
+                h = obj.subgraph(np.array(nodes))
+                k = len(nodes)
+                Asub = [[int(A[u][v]) for v in nodes] for u in nodes]
+                got = (h.csgraph.toarray() != 0).astype(int).tolist()
+                sub_cur = None if cur is None else [cur[u] for u in nodes]
+                hl = None if h.node_labels is None else h.node_labels.tolist()
+                if h.n != k or got != Asub:
+                    fail("sub:pattern", "subgraph(%s) has pattern %s, expected %s" % (nodes, got, Asub))
+                if hl != sub_cur:
+                    fail("dg:hist-labels", "subgraph(%s) carries labels %s, the graph's current labels give %s" % (nodes, hl, sub_cur))
+                rep = dg_report(h, hl is not None)
+                if hl is None:
+                    a, b, c = class_strings(rep, None)
+                else:
+                    cd = [code(x) for x in hl]
+                    def relab(lst):
+                        return [[code(x) for x in cl] for cl in lst] if isinstance(lst, list) else lst
+                    rep2 = dict(rep, scc_lab=relab(rep["scc_lab"]), sink_lab=relab(rep["sink_lab"]), cyc_lab=relab(rep["cyc_lab"]))
+                    a, b, c = class_strings(rep2, cd)
+                aper = rep["aper"]
+                srows = [[j for j in range(k) if got[i][j]] for i in range(k)]
+                outs.append("n=%d adj=%s sc=%d nscc=%d nsink=%d scc=%s sink=%s period=%s aper=%s cyc=%s" % (
+                    h.n, adj_str(srows), rep["sc"], rep["nscc"], rep["nsink"], a, b, rep["period"],
+                    int(aper) if isinstance(aper, bool) else aper, c))
+                steps.append("S:" + ",".join(map(str, nodes)))
+                ctx.count("hist:read-sub")
+                continue
+            if what in ("sc", "nscc", "nsink"):
+                v = getattr(obj, names[what])
+                want = {"sc": irreducible, "nscc": len(ref), "nsink": len(ref_sink)}[what]
+                if (bool(v) if what == "sc" else int(v)) != want:
+                    fail(kind + ":hist-read", "%s = %s, from the definition %s" % (names[what], v, want))
+                outs.append(str(int(v)))
+                steps.append("R:" + wname[what])
+            elif what == "period":
+                v = attempt(lambda: int(obj.period))
+                if v != want_period:
+                    fail(kind + ":hist-read", "period = %s, from the definition %s" % (v, want_period))
+                outs.append(str(v)); steps.append("R:period")
+            elif what == "aper":
+                v = attempt(lambda: bool(obj.is_aperiodic))
+                if (v if isinstance(v, str) else (v == (want_period == 1))) not in (True, "ERR:NotImplementedError") \
+                        or (isinstance(v, str) != isinstance(want_period, str)):
+                    fail(kind + ":hist-read", "is_aperiodic = %s with period %s" % (v, want_period))
+                outs.append(v if isinstance(v, str) else str(int(v))); steps.append("R:aper")
+            elif what in names["idx"]:
+                got = tolists(attempt(lambda: getattr(obj, names["idx"][what])))
+                check_idx(what, got)
+                outs.append(got if isinstance(got, str) else cls_str(rot0(got) if what == "cyc" else canon(got)))
+                steps.append("R:" + what)
+            else:   # labelled variant
+                iname = lab_of[what]
+                gi = tolists(attempt(lambda: getattr(obj, names["idx"][iname])))
+                raw = attempt(lambda: getattr(obj, names["lab"][what]))
+                check_idx(iname, gi)
+                eff = cur if kind == "dg" else frozen       # what a correct implementation (dg) / the code as documented-by-behaviour (mc) uses
+                if isinstance(raw, str):
+                    if raw != gi:
+                        fail(kind + ":hist-labels", "%s raised but the indices variant gave %s" % (names["lab"][what], gi))
+                    outs.append(raw)
+                else:
+                    gl = [list(np.asarray(c).tolist()) for c in raw]
+                    def expect(L):
+                        return [[(u if L is None else L[u]) for u in c] for c in gi]
+                    if gl != expect(cur):
+                        if kind == "mc" and gl == expect(frozen):
+                            ctx.spec_fail("mc:stale-state-values",
+                                          "%s = %s uses the state_values %s the digraph was built with, the chain's current state_values %s give %s"
+                                          % (names["lab"][what], gl, frozen, cur, expect(cur)), dict(replay, steps=list(replay["steps"])))
+                            ctx.count("hist:mc-stale-read")
+                        else:
+                            fail(kind + ":hist-labels", "%s = %s, but indices %s under the current labels %s give %s"
+                                 % (names["lab"][what], gl, gi, cur, expect(cur)))
+                    if (what in seen_lab_read) :
+                        ctx.count("hist:labelled-read-repeated")
+                    # canonical string in label codes (indices when the effective labels are None)
+                    cls = [sorted(zip(c, [(x if eff is None else code(x)) for x in cl])) for c, cl in zip(gi, gl)] \
+                        if len(gi) == len(gl) and all(len(c) == len(cl) for c, cl in zip(gi, gl)) else None
+                    if cls is None:
+                        outs.append("LABELLED-SHAPE-MISMATCH")
+                    else:
+                        if what == "cyclab":
+                            for k_, c in enumerate(cls):
+                                if 0 in [u for u, _ in c]:
+                                    cls = cls[k_:] + cls[:k_]
+                                    break
+                        else:
+                            cls.sort(key=lambda c: [u for u, _ in c])
+                        outs.append(";".join(",".join(str(x) for _, x in c) for c in cls) if cls else "-")
+                if what in seen_lab_read and any(st.startswith("L:") for st in steps[seen_last[what]:]):
+                    ctx.count("hist:relabelled-between-two-reads-of-same-labelled-property")
+                seen_lab_read.add(what)
+                seen_last[what] = len(steps)
+                steps.append("R:" + what)
+            ctx.count("hist:read")
+        if kind == "mc" and frozen != "unbuilt":
+            # the model is told which labels the digraph froze (it derives them itself from the history)
+            pass
+        line += " steps=" + ("|".join(steps) if steps else "-")
+        cases.append(Case(line, " # ".join(outs), nontrivial=(len(outs) >= 2), tag="hist-" + kind))
+        ctx.count("hist:" + kind)
+
+    seen_last = {}
+    if r is not None:      # --replay of a recorded history
+        history(r["adj"], r["kind"], script=r)
+        ctx.run_cases(cases)
+        return
+    for A0 in ([[1]], [[0, 1], [1, 0]], [[1, 1], [0, 1]]):
+        for kind in ("dg", "mc"):
+            for _ in range(ctx.n(6, 30)):
+                seen_last.clear()
+                history(A0, kind)
+    for _ in range(ctx.n(500, 5000)):
+        seen_last.clear()
+        A = small_graph()
+        history(A, "mc" if (all(any(r) for r in A) and rng.random() < 0.4) else "dg")
 
     # ---- malformed stream (error paths of the constructors; no model counterpart) -------------------------
     for bad, exc in (((lambda: DiGraph(np.ones((2, 3)))), ValueError),
